@@ -162,15 +162,17 @@ def stored_value(name, q, s):
     return paramtable.num(val)
 
 
-def observe_module(pkg, cls, model, name, s):
-    """Fresh instance of a module class; only `name` is provided; the class's own read_parameters runs."""
+def observe_module(pkg, cls, model, name, s, key=None):
+    """Fresh instance of a module class; only `name` is provided (written under the input-file key `key` when it is a
+    deprecated alias of `name`); the class's own read_parameters runs."""
     import inspect
     import os
     import sys
     from pathlib import Path
     from geophires_x.Parameter import ParameterEntry
     o = paramtable.instantiate(pkg, cls, model)
-    entry = {name: ParameterEntry(Name=name, sValue=s, raw_entry=f'{name}, {s}')}
+    key = key or name
+    entry = {key: ParameterEntry(Name=key, sValue=s, raw_entry=f'{key}, {s}')}
     stash = (os.getcwd(), sys.argv)
     try:
         with contextlib.redirect_stdout(io.StringIO()):
@@ -208,6 +210,14 @@ def _holder(parts, name):
     return None
 
 
+def with_line(base_text, name, s, alias=None):
+    """base input + one overriding line; under a deprecated alias the base must not give the current name as well"""
+    if alias:
+        keep = [ln for ln in base_text.splitlines() if ln.split(',')[0].strip() not in (name, alias)]
+        return '\n'.join(keep) + f'\n{alias}, {s}\n'
+    return base_text.rstrip('\n') + f'\n{name}, {s}\n'
+
+
 def family_read(job):
     """Worker: Model(input file) + Model.read_parameters() (or HIP_RA_X) on base text + one overriding line.
     -> (class that holds the parameter, observation)"""
@@ -216,10 +226,10 @@ def family_read(job):
     import sys
     import uuid
     from pathlib import Path
-    kind, base_text, name, s, scratch = job
+    kind, base_text, name, s, scratch = job[:5]
     logging.disable(logging.CRITICAL)
     path = Path(scratch, f'fam_{uuid.uuid4().hex[:12]}.txt')
-    path.write_text(base_text.rstrip('\n') + f'\n{name}, {s}\n')
+    path.write_text(with_line(base_text, name, s, job[5] if len(job) > 5 else None))
     stash = (os.getcwd(), sys.argv)
     cls, parts = None, []
     try:
@@ -261,13 +271,13 @@ def client_run(job):
     import os
     import tempfile
     from pathlib import Path
-    kind, base_text, name, s, scratch = job
+    kind, base_text, name, s, scratch = job[:5]
     logging.disable(logging.CRITICAL)
     os.environ['TMPDIR'] = scratch
     tempfile.tempdir = scratch
     import uuid
     path = Path(scratch, f'cli_{uuid.uuid4().hex[:12]}.txt')
-    path.write_text(base_text.rstrip('\n') + f'\n{name}, {s}\n')
+    path.write_text(with_line(base_text, name, s, job[5] if len(job) > 5 else None))
     out, err = None, None
     try:
         with contextlib.redirect_stdout(io.StringIO()):
@@ -290,3 +300,77 @@ def client_run(job):
             with contextlib.suppress(OSError):
                 Path(f).unlink()
     return {'error': err, 'result_file': exists}
+
+
+# ---------------------------------------------------------------------------------------------------------
+# deprecated aliases: keys a read_parameters method looks up in InputParameters that are no Parameter Name
+# ---------------------------------------------------------------------------------------------------------
+
+def _lookup_keys(fn):
+    """string keys a function looks up in / tests against `<x>.InputParameters` (constants, or names bound to one)"""
+    import ast
+    import inspect
+    mod = ast.parse(open(inspect.getsourcefile(fn)).read())
+    cname = fn.__qualname__.split('.')[0]
+    tree = next(f for c in ast.walk(mod) if isinstance(c, ast.ClassDef) and c.name == cname
+                for f in c.body if isinstance(f, ast.FunctionDef) and f.name == fn.__name__)
+    consts = {n.targets[0].id: n.value.value for n in ast.walk(tree)
+              if isinstance(n, ast.Assign) and len(n.targets) == 1 and isinstance(n.targets[0], ast.Name)
+              and isinstance(n.value, ast.Constant) and isinstance(n.value.value, str)}
+
+    def res(x):
+        if isinstance(x, ast.Constant) and isinstance(x.value, str):
+            return x.value
+        return consts.get(x.id) if isinstance(x, ast.Name) else None
+
+    def is_ip(x):
+        return isinstance(x, ast.Attribute) and x.attr == 'InputParameters'
+    out = set()
+    for n in ast.walk(tree):
+        if isinstance(n, ast.Subscript) and is_ip(n.value):
+            out.add(res(n.slice))
+        if isinstance(n, ast.Compare) and len(n.comparators) == 1 and is_ip(n.comparators[0]) and isinstance(n.ops[0], (ast.In, ast.NotIn)):
+            out.add(res(n.left))
+    return {k for k in out if k and not k.startswith('Units:')}
+
+
+def aliases(model):
+    """[(package, class, alias key, Name of the parameter it sets)]: the target is found by behaviour - the
+    parameter whose stored value changes, or that the error names, when only the alias is supplied."""
+    rows = paramtable.rows()
+    all_names = {r['name'] for r in rows}
+    out = []
+    for pkg, c in paramtable.module_classes():
+        keys = set()
+        for k in c.__mro__:
+            if 'read_parameters' in vars(k):
+                keys |= _lookup_keys(vars(k)['read_parameters'])
+        mine = [r['name'] for r in rows if r['cls'] == c.__name__ and r['kind'] in ('KFloat', 'KInt')]
+        for alias in sorted(keys - all_names):
+            base = _values_after(pkg, c, model, '<no such key>', '1', mine)
+            target = None
+            for trial in ('1', '100', '1000', '0.5', '10000', '7'):
+                got = _values_after(pkg, c, model, alias, trial, mine)
+                target = got if isinstance(got, str) else next((n for n in mine if isinstance(base, dict) and got[n] != base[n]), None)
+                if target:
+                    break
+            out.append((pkg, c, alias, target if target in mine else None))
+    return out
+
+
+def _values_after(pkg, cls, model, key, s, names):
+    """{name: repr of .value} after the class's read_parameters with only `key` supplied; the parameter an error names"""
+    from geophires_x.Parameter import ParameterEntry
+    o = paramtable.instantiate(pkg, cls, model)
+    try:
+        with contextlib.redirect_stdout(io.StringIO()):
+            if pkg == 'hip_ra_x':
+                return {n: None for n in names}
+            model.InputParameters = {key: ParameterEntry(Name=key, sValue=s, raw_entry=f'{key}, {s}')}
+            o.read_parameters(model)
+    except Exception as e:  # noqa
+        m = RANGE_MSG.search(str(e))
+        return m.group(1) if m else {n: None for n in names}
+    finally:
+        model.InputParameters = {}
+    return {n: repr(o.ParameterDict[n].value) for n in names}
